@@ -30,6 +30,9 @@ theorem Seg.WF.mass_nonneg {s : Seg} (h : s.WF) : 0 ≤ s.m := by
 
 theorem kisZero_iff (x : ℝ) : kisZero x = true ↔ x = 0 := by simp [kisZero]
 
+theorem kmaxz_of_nonneg (x : ℝ) (h : 0 ≤ x) : kmaxz x = x := by
+  unfold kmaxz; rw [if_neg (not_lt.mpr h)]
+
 /-- the radicand of `solve` is `(k x₁ + b)² + 2 k d` -/
 theorem radicand_eq (s : Seg) (d : ℝ) :
     s.b * s.b + s.k * (s.k * (s.xb * s.xb) + 2 * s.b * s.xb + 2 * d) = (s.k * s.xb + s.b) ^ 2 + 2 * s.k * d := by
@@ -89,7 +92,7 @@ theorem seg_inv {s : Seg} (h : s.WF) (hm : 0 < s.m) (d : ℝ) (hd1 : -s.m ≤ d)
       unfold Seg.inv
       rw [if_neg (fun hh => hk ((kisZero_iff _).mp hh))]
       unfold ksqrt
-      rw [radicand_eq]
+      rw [radicand_eq, kmaxz_of_nonneg _ hR0]
     have hkt : s.k * s.inv d + s.b = r := by rw [hinv]; field_simp; ring
     have hta : s.inv d - s.xa = (r - Ya) / s.k := by rw [hinv, hYa]; field_simp; ring
     have htb : s.inv d - s.xb = (r - Yb) / s.k := by rw [hinv, hYb]; field_simp; ring
